@@ -432,6 +432,9 @@ func editPlan() []editUnit {
 			}
 		}
 		k := ev.Scale(2, 10)
+		if strings.HasPrefix(kind.name, "cff2") {
+			k = ev.Scale(4, 10) // the corpus has three small single-FD CFF2 fonts: all of them
+		}
 		composite := strings.HasPrefix(kind.name, "glyf-composite")
 		if composite {
 			k = ev.Scale(3, 16)
